@@ -666,6 +666,12 @@ func ToEntry(n Node) (e *Entry) {
 		if g == nil {
 			return newError(n, "unknown group: %s", s.Name)
 		}
+		// A grouping must not use itself, directly or through other
+		// groupings (RFC 7950 7.12); expanding one that does never ends.
+		if !ms.startExpanding(g) {
+			return newError(n, "grouping %s uses itself", s.Name)
+		}
+		defer ms.doneExpanding(g)
 		// We need to return a duplicate so we resolve properly
 		// when the group is used in multiple locations and the
 		// grouping has a leafref that references outside the group.
